@@ -121,6 +121,10 @@ type Exec struct {
 	regionAlias map[*Region]*Region
 	anyElems  map[string]Value
 	zeroObjs  map[*Object]Value
+	strTags     map[string]string
+	strElems    map[string]VStr
+	objTags     map[*Object]string
+	litOfRegion map[*Region]string
 	contractErrs []string
 	skippedEnsures map[string]bool
 	maxPaths  int
@@ -138,7 +142,7 @@ func NewExec(p *Prog, fn *ssa.Function, c *Contract) *Exec {
 		ordinals: map[string]int{}, instrOrd: map[instrKind]string{},
 		inlined: map[string]bool{}, byContr: map[string]bool{}, intrUsed: map[string]bool{}, unspec: map[string]bool{},
 		specFns: map[string]bool{}, maxPaths: 4000,
-		errDyn: map[string]types.Type{}, freshRegs: map[*Region]bool{}, regionAlias: map[*Region]*Region{}, skippedEnsures: map[string]bool{}, anyElems: map[string]Value{}, zeroObjs: map[*Object]Value{},
+		errDyn: map[string]types.Type{}, freshRegs: map[*Region]bool{}, regionAlias: map[*Region]*Region{}, skippedEnsures: map[string]bool{}, strTags: map[string]string{}, strElems: map[string]VStr{}, objTags: map[*Object]string{}, litOfRegion: map[*Region]string{}, anyElems: map[string]Value{}, zeroObjs: map[*Object]Value{},
 		allRegs: map[string]*Region{}, boundedLoops: map[string]bool{}, noInvLoops: map[string]bool{},
 	}
 	return e
